@@ -33,7 +33,30 @@ class C12(Prop):
     ]
     COMPARE = {"rebal", "lasttrades", "pos", "nrec"}
 
+    def gen_trunc_vs_threshold(self, rng):
+        """whole lots whose truncation moves the imbalance weight across the threshold (both directions)"""
+        price = Fraction(rng.choice([2048, 4096, 8192]))
+        mult = Fraction(rng.choice([1, 2]))
+        lotw = price * mult / 65536
+        key = "S0" if mult == 1 else "U0"
+        contracts = [dict(key=key, kind="ETF")] if mult == 1 else [dict(key=key, kind="user", mult=str(mult), cashReq="1", mr="0")]
+        t = bs.T0
+        ops = [["q", key, t, fr(price), fr(price)]]
+        held = rng.randint(-3, 3)
+        if held:
+            ops.append(["tradeq", key, fr(Fraction(held)), t + 1])
+        m = rng.randint(1, 3)
+        margin = (m + Fraction(rng.choice([1, 2, 3]), 4)) * lotw       # strictly between m and m+1 lots
+        frac = Fraction(rng.choice([1, 2, 3, 5, 7]), 8)                 # imbalance = m + frac lots, or m+1 lots exactly
+        lots = m + frac if rng.random() < 0.8 else Fraction(m + 1)
+        sign = rng.choice([1, -1])
+        target = held * lotw + sign * lots * lotw
+        ops.append(["rebal", t + 10, 1, 1, 0, fr(margin), {key: fr(target)}])
+        return dict(contracts=contracts, fees=["0", "0", "0"], deposit="65536", exact=True, ops=ops)
+
     def gen(self, rng, tier):
+        if rng.random() < 0.15:
+            return self.gen_trunc_vs_threshold(rng)
         n = rng.randint(1, 3)
         contracts, ops, t = [], [], bs.T0
         price, mult = {}, {}
@@ -50,6 +73,10 @@ class C12(Prop):
         keys = [c["key"] for c in contracts]
         for k in keys:
             price[k] = Fraction(rng.choice([1, 2, 4, 8, 16, 32, 64])) if rng.random() < 0.85 else Fraction(1, 2)
+            if rng.random() < 0.35:
+                # one lot is a sizeable fraction of NLV (1/32 .. 1/4): truncating the imbalance to whole lots moves
+                # its weight across the threshold, so "which quantity is the threshold applied to" becomes visible
+                price[k] = Fraction(rng.choice([2048, 4096, 8192, 16384]))
             ops.append(["q", k, t, fr(price[k]), fr(price[k])])
         nlv = Fraction(65536)
         whole = rng.random() < 0.5
